@@ -113,3 +113,17 @@ Theorem C02_placeholder_equal_to_default_refuted :
   param_repr k2c_param (sr (of_map [(lit "D", lit "/srv")]) (VStr (lit "{D}/x")), false).
 Proof. exact placeholder_default_matters. Qed.
 Print Assumptions C02_placeholder_equal_to_default_refuted.
+
+(* global_vars given or not (an unresolved placeholder stays in the string both ways): the same text, as long as repr()
+   of the string is the string between single quotes - no quote, backslash or unprintable character in it *)
+Theorem C02_global_vars_given_or_not : forall p g s,
+  py_repr_str s = squote :: s ++ [squote] -> value_repr p (apply_str g s) = value_repr p (VStr s).
+Proof. exact no_global_vars_same_text. Qed.
+Print Assumptions C02_global_vars_given_or_not.
+
+(* K2e (open known finding): with such a character the guard is necessary - a ReprStr is rendered by repr() of its
+   source, a plain string between single quotes without escaping.  Replayed on the implementation on every run. *)
+Theorem C02_quoted_placeholder_text_refuted :
+  value_repr k2e_param (apply_str (of_map []) (lit "it's {Y}")) <> value_repr k2e_param (VStr (lit "it's {Y}")).
+Proof. exact quoted_placeholder_text_matters. Qed.
+Print Assumptions C02_quoted_placeholder_text_refuted.
